@@ -6,6 +6,7 @@ inaccessible page; the empty buffer; strings of length 8..11 with three prefix p
 three (quick two) positions.  Oracle: exact arithmetic in the driver (unsigned __int128), itself cross-checked against
 the Python reference decoder on every string of length <= 2.
 """
+PROMOTE = True   # quick runs the former thorough bound (seconds); thorough goes deeper where a deeper bound is defined (ctx.deep)
 import core, zckref
 
 
